@@ -173,6 +173,7 @@ func observe(m *multiEndpoint) string {
 type runner struct {
 	m *multiEndpoint
 	w *bufio.Writer
+	nhist int
 }
 
 func (r *runner) emit(o meOp, extra string) {
@@ -276,7 +277,26 @@ func (r *runner) genAndRun(g *rng, maxOps int) {
 	if g.intn(50) == 0 {
 		pool = 20 + g.intn(280)
 	}
+	r.nhist++
+	if r.nhist == 3 { // one very long list per run (priorities beyond 2^10), few operations: the model is slow on it
+		pool = 1030 + g.intn(70)
+		if maxOps > 4 {
+			maxOps = 4
+		}
+	}
 	h0 := meOp{kind: 'H', a: g.pick(durs), b: g.pick(durs), ids: genList(g, pool)}
+	huge := r.nhist == 3
+	if huge { // every id once, shuffled; no recovery window and no switching delay: Current() follows at once
+		h0.a, h0.b = 0, 0
+		h0.ids = make([]int, pool)
+		for i := range h0.ids {
+			h0.ids[i] = i
+		}
+		for i := pool - 1; i > 0; i-- {
+			j := g.intn(i + 1)
+			h0.ids[i], h0.ids[j] = h0.ids[j], h0.ids[i]
+		}
+	}
 	if g.intn(40) == 0 {
 		h0.a = -5
 	}
@@ -285,6 +305,10 @@ func (r *runner) genAndRun(g *rng, maxOps int) {
 	}
 	if !r.start(h0) {
 		return
+	}
+	if huge { // only endpoints of very low priority (positions 1024 and beyond) become available
+		r.apply(meOp{kind: 'A', a: int64(h0.ids[1024+g.intn(pool-1024)]), b: 1})
+		r.apply(meOp{kind: 'A', a: int64(h0.ids[1024+g.intn(pool-1024)]), b: 1})
 	}
 	n := 1 + g.intn(maxOps)
 	for i := 0; i < n; i++ {
